@@ -12,6 +12,11 @@ correspondence: E-CONC under VRT — harness/c17.cpp runs the real CachedPageAll
                 evaluates the ownership / conservation / destructor / strict-bound / recycler oracle on the
                 real code.  E-SEQ: the same harness built without VRT under ASan+UBSan, single-threaded
                 histories, events only (the model runs its atomic steps itself).
+fixed cases:    corpus/C17/fixed.txt (run first) + two regression witnesses of repaired defects, oracle / sanitizer
+                verdict only: `handles` (move assignment / vector erase of pooled handles: Deleter::operator= had no
+                return statement, key verdict:handles:crash) and `batchdefault` (BatchPageAllocator with its default
+                batch size wrote through a null buffer, key verdict:batchdefault:crash); gen_repaired_shapes pins
+                the repaired source shapes.
 """
 from vlib.core import *
 
